@@ -16,7 +16,7 @@ EXPLANATION = (
     "C05.2 on every Err return of spawn everything acquired so far (join block, boxed closure, stack mapping, TLS block) has been released, on Ok everything was handed to the thread/handle; "
     "C05.3 the start function re-boxes the closure and calls it exactly once (not in a loop), and the trampoline has exactly one indirect call, on the child side; "
     "C05.4 in the thread's closure the user function is called, then the result slot is written, then the hand-over flag is flipped (dominance), and only that closure writes the slot - the panic handler does not, so None <=> panicked; the thread-local block is freed only after the user's function returned (a panicking function leaves it to the panic handler, which needs it to end the thread); "
-    "C05.5 join (and the handle's Drop) read/free the shared block only after observing the exit word != UNFINISHED with a load of ordering >= Acquire made after the wait returned (re-check loop); "
+    "C05.5 join (and the handle's Drop) read/free the shared block only after observing the exit word != UNFINISHED with a load of ordering >= Acquire made after the wait returned (re-check loop), and a thread that frees its own join block resets its clear-tid address first (so its exit write cannot land in a recycled block - another thread's exit word); "
     "C05.6 clone flags contain VM|FS|FILES|SIGHAND|THREAD|SETTLS|CHILD_CLEARTID, the child-tid argument is the address of the exit word, the exit word starts as UNFINISHED != 0 and waits expect exactly that value, with the futex flavour of the kernel's wake; "
     "C05.7 the x86_64 trampoline (aarch64 in the thorough tier) puts syscall number, flags, new stack, child-tid and TLS in the registers the ABI wants and the start function and its argument reach the indirect call. "
     "NOT decided: that a created thread really starts/finishes (kernel), timing of join vs exit beyond these ordering obligations.")
@@ -120,6 +120,9 @@ def run_one(ck, prog):
                       detail="the result must be written after the user function returned and before the hand-over flag is flipped")
             ck.ob("C05.4", "flag-release", is_release(cas[0].success_order), fn=T.CLOSURE, detail=f"the hand-over CAS publishes the result; ordering {cas[0].success_order}")
     T.check_tls_outlives_user_fn(ck, prog, "C05.4")
+    # the exit word a joiner trusts is written by the kernel when the thread exits; a thread that frees its own join block must first
+    # detach that write (else it hits recycled memory: another thread's exit word, whose join then returns before that thread finished)
+    T.check_clear_tid_reset(ck, prog, "C05.5")
     cg = prog.callgraph()
     writers = sorted(cg.callers.get(T.TSM + "value_mut", ()))
     ck.ob("C05.4", "slot-writers", writers == [T.CLOSURE], detail=f"only the thread's closure may take the mutable slot pointer; callers of Tsm::value_mut: {writers}")
